@@ -12,11 +12,11 @@ theorem erAll_of_er {lo hi : Nat} {e' e : Node} (h : ∀ σ, Er (cx0 σ) lo hi e
   fun e'' hb σ => h σ e'' hb σ (Cx.ext_base (cx0 σ))
 
 theorem VC_of_dd {lo hi : Nat} {e1 n : Node} {sp : Span} (hE : ErAll lo hi e1 n) (hd : IsDdS e1 sp) (hsp : n.span = sp) :
-    VC lo hi e1 n := by
+    EVC lo hi e1 n := by
   obtain ⟨a, b, c⟩ := hd.shape lo hi n
   exact ⟨hE, Or.inl (by rw [hd.span, hsp]), a, b, c⟩
 
-theorem KL_pair {lo hi : Nat} {a' b' a b : Node} (h : KL lo hi [a', b'] [a, b]) : VC lo hi a' a ∧ VC lo hi b' b := by
+theorem KL_pair {lo hi : Nat} {a' b' a b : Node} (h : KL lo hi [a', b'] [a, b]) : EVC lo hi a' a ∧ EVC lo hi b' b := by
   simp only [KL, Forall2] at h; exact ⟨h.1, h.2.1⟩
 
 /-- the `+` arm after the children have been visited -/
@@ -24,7 +24,7 @@ theorem bin_arm (cfg : Config) (op : String) (l r l' r' : Node) (sp : Span) (s s
     (hs : srcOk (.bin op l r sp) = true) (c01 : s.counter ≤ s1.counter)
     (hkl : KL s.counter s1.counter [l', r'] [l, r]) :
     s1.counter ≤ (toDdBinary cfg (.bin op l' r' sp) s1).2.counter ∧
-    VC s.counter (toDdBinary cfg (.bin op l' r' sp) s1).2.counter
+    EVC s.counter (toDdBinary cfg (.bin op l' r' sp) s1).2.counter
       ((toDdBinary cfg (.bin op l' r' sp) s1).1.getD (.bin op l' r' sp)) (.bin op l r sp) := by
   obtain ⟨hl, hr⟩ := KL_pair hkl
   have key := fun σ => toDdBinary_Er cfg (cx0 σ) s.counter s1.counter op l' r' l r sp s1 (hypW0 σ (Nat.le_refl _)) c01
@@ -45,7 +45,7 @@ theorem assign_arm (cfg : Config) (l r l' r' : Node) (sp : Span) (s s1 : St)
     (hs : srcOk (.assign "+=" l r sp) = true) (c01 : s.counter ≤ s1.counter)
     (hkl : KL s.counter s1.counter [l', r'] [l, r]) :
     s1.counter ≤ (toDdAssign cfg (.assign "+=" l' r' sp) s1).2.counter ∧
-    VC s.counter (toDdAssign cfg (.assign "+=" l' r' sp) s1).2.counter
+    EVC s.counter (toDdAssign cfg (.assign "+=" l' r' sp) s1).2.counter
       ((toDdAssign cfg (.assign "+=" l' r' sp) s1).1.getD (.assign "+=" l' r' sp)) (.assign "+=" l r sp) := by
   obtain ⟨hl, hr⟩ := KL_pair hkl
   have hnt := tempTarget_of_VC hl (srcOk_kids hs l (by simp [kids]))
@@ -89,7 +89,7 @@ theorem assign_arm (cfg : Config) (l r l' r' : Node) (sp : Span) (s s1 : St)
     · rfl
 
 theorem tpl_VC {lo hi : Nat} {es' es qs : List Node} {sp : Span} (h : KL lo hi es' es) (hq : noBlkL qs = true) :
-    VC lo hi (.tpl es' qs sp) (.tpl es qs sp) := by
+    EVC lo hi (.tpl es' qs sp) (.tpl es qs sp) := by
   refine ⟨?_, Or.inl rfl, by simp [Deep], rfl, by simp [Node.isIdent]⟩
   intro m hb σ
   obtain ⟨es'', qs'', rfl, hes, hqs⟩ := hb.tpl_inv
@@ -105,7 +105,7 @@ theorem KL_forall2_er {lo hi : Nat} (cx : Cx) {ks' ks : List Node} (h : KL lo hi
 theorem tpl_arm (cfg : Config) (es es' qs : List Node) (sp : Span) (s s1 : St)
     (c01 : s.counter ≤ s1.counter) (hkl : KL s.counter s1.counter es' es) (hq : noBlkL qs = true) :
     s1.counter ≤ (toDdTpl cfg (.tpl es' qs sp) s1).2.counter ∧
-    VC s.counter (toDdTpl cfg (.tpl es' qs sp) s1).2.counter
+    EVC s.counter (toDdTpl cfg (.tpl es' qs sp) s1).2.counter
       ((toDdTpl cfg (.tpl es' qs sp) s1).1.getD (.tpl es' qs sp)) (.tpl es qs sp) := by
   have key := fun σ => toDdTpl_Er cfg (cx0 σ) s.counter s1.counter es' es qs sp s1 (hypW0 σ (Nat.le_refl _)) c01
     (KL_forall2_er _ hkl) hq
@@ -135,11 +135,11 @@ theorem KL_srcOk_deepEr {lo hi : Nat} (cx : Cx) : ∀ {ks' ks : List Node}, KL l
 /-- the call arm -/
 theorem call_arm (cfg : Config) (c c' : Node) (as as' : List Node) (sp : Span) (s s1 : St)
     (hs : srcOk (.call c as sp) = true) (c01 : s.counter ≤ s1.counter)
-    (hc : VC s.counter s1.counter c' c) (ha : KL s.counter s1.counter as' as)
+    (hc : EVC s.counter s1.counter c' c) (ha : KL s.counter s1.counter as' as)
     (hAA : Forall2 (fun a' a => ∃ sA e' e, a' = Node.arg sA e' ∧ a = Node.arg sA e) as' as) :
     s1.counter ≤ (toDdCall cfg (.call c' as' sp) s1).2.counter ∧
     ∀ e1 tag, (toDdCall cfg (.call c' as' sp) s1).1 = some (e1, tag) →
-      VC s.counter (toDdCall cfg (.call c' as' sp) s1).2.counter e1 (.call c as sp) := by
+      EVC s.counter (toDdCall cfg (.call c' as' sp) s1).2.counter e1 (.call c as sp) := by
   have hsk := srcOk_kids hs
   have hclash : callThisClash (.call c as sp) = false := by
     have := srcOk_self hs
